@@ -21,6 +21,7 @@ GEN = {
     "large:doublerepop": lambda rng: wc.gen_large(rng, "doublerepop"),
     "large:slowdrift": lambda rng: wc.gen_large(rng, "slowdrift"),
     "large:donorrank": lambda rng: wc.gen_large(rng, "donorrank"),
+    "large:manyK11": lambda rng: wc.gen_large(rng, "manyK11"),
     "joint:joint": lambda rng: wc.gen_joint(rng, "joint"),
     "joint:general": lambda rng: wc.gen_joint(rng, "general"),
     "joint:empty_final": lambda rng: wc.gen_joint(rng, "empty_final"),
@@ -71,6 +72,8 @@ def plan_e2e(seed, tag, mix, total, shards=None, extra=None, timeout=None, nwcap
                       seed=[seed, tag, 7777], nwcap=nwcap))
     specs.append(dict(name="e2e-slowdrift", mode="interp", what="e2e", mix={"large:slowdrift": 1.0}, n=1 if total < 600 else 4,
                       seed=[seed, tag, 9999], nwcap=nwcap))
+    specs.append(dict(name="e2e-manyK11", mode="interp", what="e2e", mix={"large:manyK11": 1.0}, n=2 if total < 600 else 6,
+                      seed=[seed, tag, 1111], nwcap=nwcap))       # more than ten clusters, whatever the random mix drew
     # ... and of runs in which two clusters are refilled in one round from two different donors that the relabelling before left alone
     specs.append(dict(name="e2e-doublerepop", mode="interp", what="e2e", mix={"large:doublerepop": 1.0}, n=4 if total < 600 else 16,
                       seed=[seed, tag, 8888], nwcap=nwcap))
